@@ -3,3 +3,4 @@ import MsiProofs.Props.C17
 import MsiProofs.Props.C18
 import MsiProofs.Props.C19
 import MsiProofs.Props.C14
+import MsiProofs.Props.C07
